@@ -95,6 +95,12 @@ Section Poly.
       destruct (calc_calls N ivs tol st' (c :: cs')) as [os stf]. exact IH.
   Qed.
 
+  Theorem calc_calls_inv' ivs tol st calls :
+    tinv N ivs st -> tinv N ivs (snd (calc_calls N ivs tol st calls)).
+  Proof.
+    intros H. destruct calls as [|c cs]; [exact H|]. apply calc_calls_inv. discriminate.
+  Qed.
+
   (* a TimePDF object under its public operations and outside changes of the
      live time / the shared profile: what it returns depends on the CURRENT
      live time and profile only, whatever the cached S was *)
@@ -247,6 +253,30 @@ Section RowsR.
     gcanon tol (Gauss (t0 - gs_ctor_dt N s tol) (t0 + gs_ctor_dt N s tol) s).
   Proof. cbn [gcanon]. destruct (K_gs_dt s tol) as [_ ->]. lra. Qed.
 End RowsR.
+
+(* the invariant S = S_of(profile) is NOT preserved by changes from outside, and
+   the loop alone (the code before fix 34ac9f2) then returns a density with the
+   wrong normalisation: 2/3 instead of 1 *)
+Lemma stale_refuted (e : R -> R) :
+  tinv (RNum e) [(0, 1); (2, 4)] (Box (1 / 2) 3, 3 / 2) /\
+  ~ tinv (RNum e) [(0, 1); (2, 4)] (Box 0 1, 3 / 2) /\
+  tpd (RNum e) [(0, 1); (2, 4)] (Box 0 1, 3 / 2) (1 / 2) = 2 / 3 /\
+  sig_time_pd (RNum e) [(0, 1); (2, 4)] (Box 0 1) (1 / 2) = 1.
+Proof.
+  destruct (time_example e) as (_ & HS & _).
+  assert (HS1 : S_of (RNum e) [(0, 1); (2, 4)] (Box 0 1) = 1).
+  { rewrite S_of_win. cbn [map Rsum fold_right]. unfold win_val.
+    cbn [fst snd p_start p_stop prof_int].
+    rewrite !K_tp_box_int_m, !K_tp_box_int_lo, !K_tp_box_int_hi, !K_tp_box_int_val.
+    rdec. cbn [andb]. rdec. cbn [andb]. lra. }
+  split; [unfold tinv; cbn [fst snd]; symmetry; exact HS|].
+  split; [unfold tinv; cbn [fst snd]; rewrite HS1; lra|].
+  split.
+  - unfold tpd, lt_is_on. cbn [existsb fst snd nleb nltb RNum prof_call none nzero].
+    rewrite K_tp_box_call_m, K_tp_sig_pd. rdec. cbn [andb orb]. lra.
+  - rewrite sig_pd_on, HS1. unfold lt_is_on. cbn [existsb fst snd nleb nltb RNum prof_call none nzero].
+    rewrite K_tp_box_call_m. rdec. cbn [andb orb]. lra.
+Qed.
 
 (* ================================================================== add_events / reset *)
 Section AddEvents.
